@@ -23,7 +23,7 @@ ENTRIES = ["take_step", "advance", "run_for", "get_parameter", "get_probabilitie
            "get_interval", "get_marginal", "mode", "save", "matrix_plot", "trace_plot", "plot_diagnostics"]
 FLOORS = {"key-agreement": 6, "reload-defined": 40, "save-defined": 5, "restored-value-flow": 4,
           "state-persisted": 7, "key-pairing": 6, "restored-type": 2,
-          "stack-roundtrip": 2, "derived-consistent": 5, "slot-reselected": 1, "reloaded-limit-hook": 3, "ctor-arg-roundtrip": 1, "rebuilt-object-roundtrip": 3, "load-forwards-arguments": 4, "adaptation-test-survives-reload": 2, "saved-key-restored": 7}
+          "stack-roundtrip": 2, "derived-consistent": 5, "slot-reselected": 1, "reloaded-limit-hook": 3, "ctor-arg-roundtrip": 1, "rebuilt-object-roundtrip": 3, "load-forwards-arguments": 4, "adaptation-test-survives-reload": 2, "saved-key-restored": 7, "restore-target": 6, "restored-container": 6, "save-writes": 4}
 
 
 def load_context(prog, ci):
@@ -709,6 +709,149 @@ def _slot_reselected(prog, pc, ld, var, rel):
                                        "events": [f"{e[1]}:{e[2]}" for e in events]})
 
 
+LIST_ONLY = {"append", "extend", "insert", "pop", "remove"}
+WRITERS = {"savez", "savez_compressed"}
+
+
+def _restore_targets(owner, lfn, var, rel):
+    """Every attribute store in a loader goes to the object being rebuilt (or to something reached from it / built locally): a
+    store on the archive or on another argument (`D.inv_temp = float(D["inv_temp"])`) is accepted by Python - an NpzFile or a dict
+    subclass takes attributes - and leaves the rebuilt object at its constructor default."""
+    params = {a.arg for a in lfn.args.args + lfn.args.kwonlyargs}
+    archives = set()
+    for st in ast.walk(lfn):
+        if isinstance(st, ast.Assign) and len(st.targets) == 1 and isinstance(st.targets[0], ast.Name) and isinstance(st.value, ast.Call):
+            f = st.value.func
+            if (f.id if isinstance(f, ast.Name) else f.attr if isinstance(f, ast.Attribute) else None) == "load":
+                archives.add(st.targets[0].id)
+    foreign = (params | archives) - {var}
+    bad, n = [], 0
+    for st in ast.walk(lfn):
+        tgts = st.targets if isinstance(st, ast.Assign) else [st.target] if isinstance(st, (ast.AugAssign, ast.AnnAssign)) else []
+        for t in tgts:
+            for el in (t.elts if isinstance(t, (ast.Tuple, ast.List)) else [t]):
+                if not isinstance(el, ast.Attribute):
+                    continue
+                b = el
+                while isinstance(b, (ast.Attribute, ast.Subscript)):
+                    b = b.value
+                if not isinstance(b, ast.Name):
+                    continue
+                if b.id == var:
+                    n += 1
+                elif b.id in foreign:
+                    bad.append(f"line {st.lineno}: `{U(st)[:80]}` stores on `{b.id}` (the archive / an argument), not on the rebuilt object `{var}`")
+    return struct_ob("restore-target", owner, not bad and n > 0, "; ".join(bad[:2]) or "no attribute restored on the rebuilt object", rel, lfn.lineno,
+                     slots={"stores_on_rebuilt_object": n}, tier="E")
+
+
+def _list_uses(prog, ci):
+    """{attribute: (level, where)}: attributes of ci used through list-only methods (`self.a.append(..)` level 0, `self.a[i].append(..)`
+    level 1) anywhere in the class, its bases and its subclasses."""
+    out = {}
+    classes = list(prog.mro(ci)) + list(prog.subclasses(ci.name))
+    for c in classes:
+        for fn in c.methods.values():
+            if not fn.args.args:
+                continue
+            sn = fn.args.args[0].arg
+            for n in ast.walk(fn):
+                if isinstance(n, ast.Call) and isinstance(n.func, ast.Attribute) and n.func.attr in LIST_ONLY:
+                    r, lvl = n.func.value, 0
+                    if isinstance(r, ast.Subscript):
+                        r, lvl = r.value, 1
+                    if isinstance(r, ast.Attribute) and isinstance(r.value, ast.Name) and r.value.id == sn:
+                        out.setdefault((r.attr, lvl), f"{c.name}.{fn.name} line {n.lineno}: `{U(n)[:60]}`")
+    return out
+
+
+def _array_valued(e, archives):
+    """The expression is certainly a numpy array: an archive entry as read, a slice of one, or an array constructor."""
+    if isinstance(e, ast.Subscript):
+        b = e
+        while isinstance(b, ast.Subscript):
+            b = b.value
+        return isinstance(b, ast.Name) and b.id in archives and not isinstance(e.slice, ast.Constant) or \
+            (isinstance(e.value, ast.Name) and e.value.id in archives)
+    if isinstance(e, ast.Call):
+        f = e.func
+        nm = f.id if isinstance(f, ast.Name) else f.attr if isinstance(f, ast.Attribute) else None
+        return nm in ("array", "asarray", "copy", "stack", "concatenate", "atleast_1d")
+    return False
+
+
+def _restored_containers(prog, ci, owner, lfn, var, archives, rel):
+    """An attribute the class grows with list methods is restored as a list (and a list of lists as lists): an archive entry is an
+    ndarray, and `ndarray.append` does not exist - the reloaded sampler could not take its next step."""
+    uses = _list_uses(prog, ci)
+    bad, n = [], 0
+    for st in ast.walk(lfn):
+        if not (isinstance(st, ast.Assign) and len(st.targets) == 1 and isinstance(st.targets[0], ast.Attribute)
+                and isinstance(st.targets[0].value, ast.Name) and st.targets[0].value.id == var):
+            continue
+        a, v = st.targets[0].attr, st.value
+        if (a, 0) in uses:
+            n += 1
+            if _array_valued(v, archives):
+                bad.append(f"line {st.lineno}: `{U(st)[:80]}` restores an array, but {uses[(a, 0)]} needs a list")
+        if (a, 1) in uses:
+            n += 1
+            elt = v.elt if isinstance(v, ast.ListComp) else None
+            gen_vars = {x.id for g in v.generators for x in ast.walk(g.target) if isinstance(x, ast.Name)} if elt is not None else set()
+            if _array_valued(v, archives) or (elt is not None and (isinstance(elt, ast.Name) and elt.id in gen_vars and
+                                                                  any(_array_valued(g.iter, archives) for g in v.generators))):
+                bad.append(f"line {st.lineno}: `{U(st)[:80]}` restores rows of an array, but {uses[(a, 1)]} needs lists")
+    return struct_ob("restored-container", owner, not bad, "; ".join(bad[:2]), rel, lfn.lineno, slots={"list_attributes_restored": n}, tier="E")
+
+
+def _save_writes(owner, sfn, rel):
+    """Every way through save that ends normally has written the archive (`savez` / `savez_compressed` with the collected items)."""
+    # a local that holds the writer (`write = savez_compressed if compressed else savez`)
+    writers = set(WRITERS)
+
+    def is_writer(e):
+        if isinstance(e, ast.IfExp):
+            return is_writer(e.body) and is_writer(e.orelse)
+        return (isinstance(e, ast.Name) and e.id in writers) or (isinstance(e, ast.Attribute) and e.attr in WRITERS)
+    for _ in range(2):
+        for st_ in ast.walk(sfn):
+            if isinstance(st_, ast.Assign) and len(st_.targets) == 1 and isinstance(st_.targets[0], ast.Name) and is_writer(st_.value):
+                writers.add(st_.targets[0].id)
+
+    def writes(st):
+        return any(isinstance(c, ast.Call) and is_writer(c.func) and (c.keywords or len(c.args) > 1) for c in ast.walk(st))
+
+    def must(stmts):
+        """(written on every path that falls through, some path returns without having written)"""
+        done, leak = False, False
+        for st in stmts:
+            if isinstance(st, ast.If):
+                d1, l1 = must(st.body)
+                d2, l2 = must(st.orelse)
+                leak = leak or ((l1 or l2) and not done)
+                done = done or (d1 and d2) or writes(st.test)
+            elif isinstance(st, (ast.With, ast.Try)):
+                d1, l1 = must(st.body)
+                leak = leak or (l1 and not done)
+                done = done or d1
+            elif isinstance(st, ast.Return):
+                if not done and not (st.value is not None and writes(st.value)):
+                    leak = True
+                return done or True, leak
+            elif isinstance(st, ast.Raise):
+                return True, leak
+            elif not isinstance(st, (ast.For, ast.While, ast.FunctionDef)) and writes(st):
+                done = True
+        return done, leak
+    done, leak = must(sfn.body)
+    n = sum(1 for c in ast.walk(sfn) if isinstance(c, ast.Call) and is_writer(c.func))
+    if n == 0:
+        raise AnalysisError(f"anchor vanished: no savez / savez_compressed call in {owner}")
+    return struct_ob("save-writes", owner, done and not leak, "a path through save ends without writing the archive "
+                     "(one arm of a branch has no savez / savez_compressed call, or a return comes first)", rel, sfn.lineno,
+                     slots={"writer_calls": n}, tier="E")
+
+
 def run(prog, tier):
     # a reloaded sampler continues like the saved one only if the hook that enforces its limits is bound exactly when limits
     # are restored - on the constructor path load() takes too (no starting positions yet): the clause C09 shares with C04
@@ -746,6 +889,8 @@ def run(prog, tier):
                          f"Parameter attributes mutated by stepping but not saved+restored: {lost}", rel, gi.lineno,
                          slots={"mutated": sorted(pwrites), "saved": len(saved_attrs), "restored": len(restored)}))
     obs.append(_slot_reselected(prog, pc, ld, var, rel))
+    obs.append(_restore_targets(qual(pc, ld), ld, var, rel))
+    obs.append(_restored_containers(prog, pc, qual(pc, ld), ld, var, {a.arg for a in ld.args.args[1:]}, rel))
     # key pairing and type restoration of the two helper classes (Parameter: suffix -> attribute; EpsilonSelector: key == attribute)
     obs.extend(_helper_pairing(prog, pc, ld, var, {sfx: U(v).split(".", 1)[1] for sfx, v in wvals.items() if U(v).startswith("self.")}, rel,
                                lambda sl: (lambda sk: sk[1] if sk is not None else None)(
@@ -768,6 +913,8 @@ def run(prog, tier):
                          f"EpsilonSelector.load_items reads {sorted(es_read - es_attrs)} not in __dict__", erel, li.lineno))
     obs.extend(_helper_pairing(prog, es, li, li.args.args[0].arg, {a: a for a in es_attrs}, erel,
                                lambda sl: sl.value if isinstance(sl, ast.Constant) and isinstance(sl.value, str) else None))
+    obs.append(_restore_targets(qual(es, li), li, li.args.args[0].arg, erel))
+    obs.append(_restored_containers(prog, es, qual(es, li), li, li.args.args[0].arg, {a.arg for a in li.args.args[1:]}, erel))
     # saved => restored: whatever get_items / __dict__ writes is read back (a value that is saved but never read leaves the reloaded
     # object at its constructor default: its limits, its target rate, its step-size state are then not those that were saved)
     unread = sorted(set(written) - set(read))
@@ -978,6 +1125,10 @@ def run(prog, tier):
         obs.append(struct_ob("saved-key-restored", f"{ci.module.name}.{cname}.load", not unread_k,
                              f"{cname}.save writes the keys {unread_k}, which load never reads: the reloaded sampler keeps the constructor's "
                              f"default where the saved one had its own value", rel, lfn.lineno, slots={"written": len(values), "read": len(read_k)}))
+        if own_pair:
+            obs.append(_restore_targets(qual(lc, lfn), lfn, var, rel))
+            obs.append(_restored_containers(prog, ci, qual(lc, lfn), lfn, var, {dn_} if dn_ else set(), rel))
+            obs.append(_save_writes(qual(sc, sfn), sfn, rel))
         obs.append(_derived_consistent(prog, ci, cname, lfn, lc, call, var, rel))
         obs.extend(_ctor_arg_roundtrip(prog, ci, cname, lfn, call, values, rel))
         obs.extend(_rebuilt_object_roundtrip(prog, ci, cname, lfn, var, values, rel))
